@@ -98,24 +98,32 @@ theorem buildMessage_quiet (pick : Pick) (s : State) (ticket : Nat) (tx : Tx) (s
   · exact q3.trans (Quiet.ofLog [] (by simp) (by simp) (by simp) rfl rfl rfl rfl)
   · exact q3
 
-theorem buildWith_quiet (pick : Pick) (s : State) (tx : Tx) (size : Nat) : Quiet s (buildWith pick s tx size) := by
+theorem buildMsg_open (pick : Pick) {s : State} (hc : s.closed = false) (ticket : Nat) (tx : Tx) (size : Nat) :
+    s.buildMsg pick ticket tx size = s.buildMessage pick ticket tx size := by
+  unfold State.buildMsg; rw [if_neg (by rw [hc]; simp)]
+
+/-- on a queue that is not closed, building is quiet -/
+theorem buildWith_quiet (pick : Pick) (s : State) (tx : Tx) (size : Nat) (hc : s.closed = false) :
+    Quiet s (buildWith pick s tx size) := by
   unfold buildWith
   simp only
   have q0 : Quiet s ({ s with nextTicket := s.nextTicket + 1 } : State) :=
     Quiet.ofLog [] (by simp) (by simp) (by simp) rfl rfl rfl rfl
   split
-  · exact q0.trans (buildMessage_quiet _ _ _ _ _)
+  · rw [buildMsg_open pick (by exact hc)]
+    exact q0.trans (buildMessage_quiet _ _ _ _ _)
   · have q1 := q0.trans (allocStep_quiet pick ({ s with nextTicket := s.nextTicket + 1 } : State) (.alloc s.peer size s.nextTicket))
     split
-    · exact q1.trans (buildMessage_quiet _ _ _ _ _)
+    · rw [buildMsg_open pick (by exact hc)]
+      exact q1.trans (buildMessage_quiet _ _ _ _ _)
     · exact q1.trans (Quiet.ofLog [] (by simp) (by simp) (by simp) rfl rfl rfl rfl)
 
-theorem build_quiet (pick : Pick) (s : State) (tx : Tx) : Quiet s (s.build pick tx) := by
+theorem build_quiet (pick : Pick) (s : State) (tx : Tx) (hc : s.closed = false) : Quiet s (s.build pick tx) := by
   rw [build_eq]; split
   · exact Quiet.refl s
-  · exact buildWith_quiet _ _ _ _
+  · exact buildWith_quiet _ _ _ _ hc
 
-theorem wake_quiet (pick : Pick) (s : State) (t : Nat) : Quiet s (s.wake pick t) := by
+theorem wake_quiet (pick : Pick) (s : State) (t : Nat) (hc : s.closed = false) : Quiet s (s.wake pick t) := by
   unfold State.wake
   split
   · exact Quiet.refl s
@@ -124,7 +132,8 @@ theorem wake_quiet (pick : Pick) (s : State) (t : Nat) : Quiet s (s.wake pick t)
     have q0 : Quiet s ({ s with waiters := s.waiters.filter (·.ticket != w.ticket) } : State) :=
       Quiet.ofLog [] (by simp) (by simp) (by simp) rfl rfl rfl rfl
     split
-    · exact q0.trans (buildMessage_quiet _ _ _ _ _)
+    · rw [buildMsg_open pick (by exact hc)]
+      exact q0.trans (buildMessage_quiet _ _ _ _ _)
     · exact q0.trans (emit_quiet _ _ (by intro e he; simp at he; subst he; rfl) (by intro e he; simp at he; subst he; rfl))
 
 end GS.MQ
